@@ -16,12 +16,11 @@ namespace Malt.Conv.Contract
 open Malt Malt.Py Malt.Naming Malt.Conv.ControlFlow
 
 private theorem model_good (env : Env) (nm : Namer) (root : Stmt) (h : cleanS root = true) :
-    ∀ o ∈ emitted (cfOutput env nm root), ∃ c, o = some c ∧ Good c ∧ OptsOk env (sourceLoopsS root) c := by
+    ∀ o ∈ emitted (cfOutput env nm root), ∃ c, o = some c ∧ Good c ∧ OptsOk env (sourceLoopsS root) c ∧ CallbacksDeclare c := by
   intro o ho
-  obtain ⟨c, hc, hg, ho'⟩ := tStmt_good env (sourceLoopsS root) root {} nm h (fun _ hl => hl) [] o ho
-  exact ⟨c, hc, hg, ho'⟩
+  obtain ⟨c, hc, hg, ho', hcb⟩ := tStmt_good env (sourceLoopsS root) root {} nm h (fun _ hl => hl) [] o ho
+  exact ⟨c, hc, hg, ho', hcb⟩
 
-/-- What `Good` gives about the state functions: one list of entries read by the getter and written by the setter. -/
 private theorem state_of_good {c : OpCall} (hg : Good c) :
     ∃ gs ts es, getterTuple c = some gs ∧ setterTargets c = some ts ∧ entriesOf gs = some es ∧
       ts.mapM exprQN = some (es.map (·.qn)) ∧ (es.map (·.qn)).Nodup ∧ es.length = c.names.length := by
@@ -35,60 +34,30 @@ private theorem state_of_good {c : OpCall} (hg : Good c) :
   have := mapM_length' he
   rw [this, (All3.lengths h3).1]
 
-private theorem independent_of {es : List Entry} (h : dependentEntries es = false) :
-    Independent (es.map (·.qn)) := by
-  intro q hq k hk hmem
-  obtain ⟨e, he, rfl⟩ := List.mem_map.mp hq
-  have h1 := List.any_eq_false.mp h e he
-  have h2 : ∀ (x : String), x ∈ indexSyms e.qn → ∀ (x_1 : Entry), x_1 ∈ es → ¬x_1.qn = QN.sym x := by
-    simpa using h1
-  obtain ⟨e', he', hq'⟩ := List.mem_map.mp hmem
-  exact h2 k hk e' he' hq'
-
-private theorem locs_of {es : List Entry} {σ : Store} (h : aliasedEntries es σ = false) :
-    ∃ ls, (es.map (·.qn)).mapM (loc σ) = some ls ∧ ls.Nodup := by
-  unfold aliasedEntries at h
-  split at h
-  · rename_i ls hls
-    refine ⟨ls, ?_, ?_⟩
-    · rw [← hls]
-      clear hls h
-      induction es with
-      | nil => rfl
-      | cons e es ih => simp only [List.map_cons, List.mapM_cons, ih]
-    · apply nodupB_sound
-      simpa using h
-  · cases h
-
-private theorem set_get_of {c : OpCall} {gs ts : List Expr} {es : List Entry}
+private theorem set_get_of {c : OpCall} {gs ts : List Expr} {es : List Entry} (hd : SetterDeclares c)
     (hgs : getterTuple c = some gs) (hts : setterTargets c = some ts) (he : entriesOf gs = some es)
     (hq : ts.mapM exprQN = some (es.map (·.qn))) (hlen : es.length = c.names.length)
-    (σ : Store) (vs : List Val) (n : Nat) (hdep : dependentEntries es = false) (hal : aliasedEntries es σ = false)
-    (hv : vs.length = c.names.length) :
+    (σ : Store) (vs : List Val) (n : Nat) (hcl : classify σ es = .lawful) (hv : vs.length = c.names.length) :
     ∃ σ', runSetter c vs σ = some σ' ∧ (runGetter c ⟨σ', n⟩).1 = some vs := by
-  obtain ⟨ls, hls, hnd⟩ := locs_of hal
-  obtain ⟨σ', hs, hgv⟩ := getS_setS es vs σ ls (independent_of hdep) hls hnd (by rw [hlen, hv])
+  obtain ⟨hu, hm, hdep, hal⟩ := lawful_facts hcl
+  obtain ⟨σ', hs, hgv⟩ := getS_setS es vs σ (slotsOf σ es) (locs_of_located es σ hu hm) (independent_of_class hdep)
+    (nodup_of_class hal) (by rw [hlen, hv])
   refine ⟨σ', ?_, ?_⟩
-  · simp only [runSetter, hts, hq, setS, List.length_map, hlen, hv, if_true, hs]
+  · simp only [runSetter, hts, hq, setterTarget_id hd hts hq, setS, List.length_map, hlen, hv, if_true, hs]
   · simp only [runGetter, hgs]
     rw [evalGetter_eq_getS gs es _ he]
     exact hgv
 
-private theorem get_set_of {c : OpCall} {gs ts : List Expr} {es : List Entry}
+private theorem get_set_of {c : OpCall} {gs ts : List Expr} {es : List Entry} (hd : SetterDeclares c)
     (hgs : getterTuple c = some gs) (hts : setterTargets c = some ts) (he : entriesOf gs = some es)
     (hq : ts.mapM exprQN = some (es.map (·.qn)))
-    (σ : Store) (vs : List Val) (n : Nat) (hm : missingComposite c σ = false)
+    (σ : Store) (vs : List Val) (n : Nat) (hu : undefBaseAt σ es = false) (hm : missingAt σ es = false)
     (hr : (runGetter c ⟨σ, n⟩).1 = some vs) : runSetter c vs σ = some σ := by
   simp only [runGetter, hgs] at hr
   rw [evalGetter_eq_getS gs es _ he] at hr
-  have hex : ∀ e ∈ es, e.guarded = true → (loc σ e.qn).bind σ ≠ none := by
-    intro e hmem hgd hnone
-    simp only [missingComposite, entries, hgs, Option.bind_some, he] at hm
-    have := List.any_eq_false.mp hm e hmem
-    simp [hgd, hnone] at this
   have hvl : vs.length = es.length := mapM_length' hr
-  simp only [runSetter, hts, hq, setS, List.length_map, hvl, if_true]
-  exact setS_getS es vs σ hex hr
+  simp only [runSetter, hts, hq, setterTarget_id hd hts hq, setS, List.length_map, hvl, if_true]
+  exact setS_getS es vs σ hu hm hr
 
 /-! ## The syntactic contract -/
 
@@ -169,7 +138,7 @@ theorem C03_nouts (env : Env) (nm : Namer) (root : Stmt) (h : cleanS root = true
         (∀ v ∈ r.scopeVars.take r.nouts, r.inputOnly.contains v = false) ∧
         (∀ v ∈ r.scopeVars.drop r.nouts, r.inputOnly.contains v = true)) := by
   intro o ho
-  obtain ⟨c, hc, hg, hopt⟩ := model_good env nm root h o ho
+  obtain ⟨c, hc, hg, hopt, _⟩ := model_good env nm root h o ho
   refine ⟨c, hc, hg.2.2.2.1, ?_⟩
   intro hk
   simp only [OptsOk, hk] at hopt
@@ -189,8 +158,53 @@ theorem C03_opts (env : Env) (nm : Namer) (root : Stmt) (h : cleanS root = true)
       (c.kind = .whileStmt → ∃ l ∈ sourceLoopsS root, l.isFor = false ∧
         c.last = loopOptions env.dirs l.id [] ∧ whileTest c = some (splice .load l.header)) := by
   intro o ho
-  obtain ⟨c, hc, _, hopt⟩ := model_good env nm root h o ho
+  obtain ⟨c, hc, _, hopt, _⟩ := model_good env nm root h o ho
   refine ⟨c, hc, ?_, ?_⟩ <;> intro hk <;> simp only [OptsOk, hk] at hopt <;> exact hopt
+
+/-! ## The contract as ONE statement -/
+
+/-- **The contract handed to third-party operator implementations**, for all three operators at once: for every source tree
+(without `ag__.*_stmt` statements of its own), every annotation / directive table and every namer state, EVERY
+`ag__.if_stmt` / `ag__.while_stmt` / `ag__.for_stmt` call in the output of the model — at any nesting depth, inside generated
+body functions included — is well formed (its functions are defined in its block) and satisfies `OperatorContract`:
+lengths, positions, distinctness, arities, getter purity, declarations of setter and callbacks, `nouts` bounds, the first
+`nouts` entries are EXACTLY the outputs (`BlockVars.isOutput`), and `opts` are exactly the directives annotated on that loop
+(+ `iterate_names`).  Proof: structural induction `tStmt_good` (Proofs/C03Model.lean) + the facts about `_get_block_vars`
+(Proofs/C03BlockVars.lean). -/
+theorem C03_operator_contract (env : Env) (nm : Namer) (root : Stmt) (h : cleanS root = true) :
+    ∀ o ∈ emitted (cfOutput env nm root), ∃ c, o = some c ∧ OperatorContract env (sourceLoopsS root) c := by
+  intro o ho
+  obtain ⟨c, hc, hg, hopt, hcb⟩ := model_good env nm root h o ho
+  refine ⟨c, hc, ⟨hg.1, hg.2.1, hg.2.2.2.2.1, hg.2.2.1, hg.2.2.2.2.2.1, hg.2.2.2.2.2.2, hcb, hg.2.2.2.1, ?_, hopt⟩⟩
+  intro hk
+  have hopt' := hopt
+  simp only [OptsOk, hk] at hopt'
+  obtain ⟨fs, id, hn, hl⟩ := hopt'
+  refine ⟨fs, id, _, rfl, hn, by rw [hl]; exact natConst_intConst _, ?_, ?_⟩
+  · rw [hn, List.length_map]
+    exact (BlockVars.blockVars_nouts ..).1
+  · intro i v hi
+    exact BlockVars.blockVars_outputs_first _ _ _ _ _ _ i v hi
+
+/-- What "output" means: a simple output that is neither live into nor live out of the statement is a name the enclosing
+function declares `global` / `nonlocal`; every other output is composite or live out. -/
+theorem C03_outputs_are_live_out_or_outer (m li lo di g n : List String) (v : String)
+    (hv : v ∈ (BlockVars.blockVars m li lo di g n).scopeVars) (ho : BlockVars.isOutput li lo v = true) :
+    BlockVars.isComposite v = true ∨ lo.contains v = true ∨ (n ++ g).contains v = true := by
+  cases hc : BlockVars.isComposite v
+  · cases hout : lo.contains v
+    · right; right
+      cases hin : li.contains v
+      · exact BlockVars.output_not_live_is_outer m li lo di g n v hv hc hin hout
+      · exfalso
+        have hin' : v ∈ li := by simpa using hin
+        have hout' : v ∉ lo := by simpa using hout
+        simp [BlockVars.isOutput, hc] at ho
+        rcases ho with h1 | h1
+        · exact h1 hin'
+        · exact hout' h1
+    · right; left; rfl
+  · left; rfl
 
 /-! ## Getter / setter algebra (store semantics of `Conv.Contract`) -/
 
@@ -206,46 +220,79 @@ theorem C03_get_pure (env : Env) (nm : Namer) (root : Stmt) (h : cleanS root = t
   simp only [runGetter, hgs]
   exact evalGetter_pure gs w hall
 
+/-! ### The classes of (state tuple, store) pairs
+
+`classify σ es` puts every pair into exactly one of `undefinedBase`, `missingComposite`, `dependent`, `aliased`, `lawful`
+(decidable, `Conv/Contract.lean`).  The three laws are theorems on `lawful`; each of the other classes has a Lean
+counterexample below, the first three are the listed findings of the pinned code. -/
+
+/-- The partition: a pair is lawful iff it is in none of the four exceptional classes. -/
+theorem C03_state_classes (σ : Store) (es : List Entry) :
+    classify σ es = .lawful ↔
+      (undefBaseAt σ es = false ∧ missingAt σ es = false ∧ dependentAt σ es = false ∧ aliasedAt σ es = false) :=
+  ⟨lawful_facts, fun h => lawful_of_facts h.1 h.2.1 h.2.2.1 h.2.2.2⟩
+
 /-
 The full statement "a write followed by a read returns what was written",
 
   theorem C03_set_get : ∀ o ∈ emitted (cfOutput env nm root), ∃ c, o = some c ∧
       ∀ σ vs n, vs.length = c.names.length → ∃ σ', runSetter c vs σ = some σ' ∧ (runGetter c ⟨σ', n⟩).1 = some vs
 
-is FALSE of the pinned code for a state tuple such as `('dd[x]', 'x')`: the tuple assignment writes `dd[<old x>]`,
-then `x`, and the read evaluates `dd[<new x>]` (`C03_set_get_counterexample`; replayed on the real code by
-corpus/C03/index_in_state.json; finding class `state_entry_indexes_by_state_entry` = `dependentEntries es = true`).
-It also fails when two entries alias at run time (`aliasedEntries es σ = true`).  What holds:
+is FALSE of the pinned code: for `('dd[x]', 'x')` the tuple assignment writes `dd[<old x>]`, then `x`, and the read
+evaluates `dd[<new x>]` (`C03_set_get_counterexample`, class `dependent`; corpus/C03/index_in_state.json); it raises when a
+base holds `Undefined` (class `undefinedBase`) or an entry cannot be located (class `missingComposite`); and two aliasing
+entries read back the later value (class `aliased`, `C03_aliased_counterexample`).  What holds:
 -/
 
-/-- A write followed by a read returns what was written, `get (set vs σ) = vs`, PROVIDED no entry's location
-depends on a variable of the same tuple and the entries denote pairwise distinct locations at call time. -/
+/-- `get_state()` after `set_state(vs)` returns `vs`, component by component — for every call the pass can emit, every
+store in the class `lawful` for its state tuple, and every `vs` of the right length. -/
 theorem C03_set_get_partial (env : Env) (nm : Namer) (root : Stmt) (h : cleanS root = true) :
     ∀ o ∈ emitted (cfOutput env nm root), ∃ c es, o = some c ∧ entries c = some es ∧
-      ∀ (σ : Store) (vs : List Val) (n : Nat), dependentEntries es = false → aliasedEntries es σ = false →
-        vs.length = c.names.length →
+      ∀ (σ : Store) (vs : List Val) (n : Nat), classify σ es = .lawful → vs.length = c.names.length →
         ∃ σ', runSetter c vs σ = some σ' ∧ (runGetter c ⟨σ', n⟩).1 = some vs := by
   intro o ho
   obtain ⟨c, hc, hg, _⟩ := model_good env nm root h o ho
   obtain ⟨gs, ts, es, hgs, hts, he, hq, hnd, hlen⟩ := state_of_good hg
   refine ⟨c, es, hc, by simp [entries, hgs, he], ?_⟩
-  intro σ vs n hdep hal hv
-  exact set_get_of hgs hts he hq hlen σ vs n hdep hal hv
+  intro σ vs n hcl hv
+  exact set_get_of hg.2.2.2.2.2.2 hgs hts he hq hlen σ vs n hcl hv
 
-/-- The counterexample to the full statement: the state tuple `('dd[x]', 'x')` with `x = 0`, written with `(1, 2)`,
-reads back `(Undefined, 2)`. -/
+private theorem i20 : Int.repr 2 ≠ Int.repr 0 := by simp [Int.repr]
+
+/-- The counterexample to the full statement (class `dependent`): the state tuple `('dd[x]', 'x')` with `dd` an object,
+`x = 0`, `dd[0] = 5`, written with `(1, 2)`, reads back `(Undefined, 2)`. -/
 theorem C03_set_get_counterexample :
     let es : List Entry := [{ qn := .sub (.sym "dd") (.sym "x"), guarded := true, label := strConst "dd[x]" },
                             { qn := .sym "x", guarded := false, label := .noneMarker }]
-    let σ : Store := fun q => if q = .sym "x" then some (.int 0) else none
+    let σ : Store := fun q =>
+      if q = .sym "dd" then some (.obj 0) else if q = .sym "x" then some (.int 0)
+      else if q = .sub (objLit 0) (.lit "int" (toString (0 : Int))) then some (.int 5) else none
     let vs : List Val := [.int 1, .int 2]
-    dependentEntries es = true ∧ aliasedEntries es σ = false ∧
+    classify σ es = .dependent ∧
     ∃ σ', assignSeq (es.map (·.qn)) vs σ = some σ' ∧ getS es σ' ≠ some vs := by
   intro es σ vs
-  have h20 : Int.repr 2 ≠ Int.repr 0 := by simp [Int.repr]
-  refine ⟨by simp [es, dependentEntries, indexSyms], ?_, _, rfl, ?_⟩
-  · simp [es, σ, aliasedEntries, loc, resolveIdx, valLit, nodupB]
-  · simp [es, vs, σ, getS, readEntry, loc, resolveIdx, update, valLit, h20]
+  have h20 := i20
+  refine ⟨?_, ?_⟩
+  · simp [es, σ, classify, undefBaseAt, missingAt, dependentAt, slotsOf, reads, resolve, Res.read, Res.slots, resolveIdx,
+      valLit, objLit]
+  · refine ⟨_, by simp [es, σ, vs, assignSeq, resolve, Res.read, resolveIdx, valLit, objLit]; rfl, ?_⟩
+    simp [es, vs, getS, readEntry, resolve, Res.read, resolveIdx, update, valLit, objLit, h20]
+
+/-- Class `aliased`: `('o.a', 'p.a')` with `o is p`, written with `(1, 2)`, reads back `(2, 2)`. -/
+theorem C03_aliased_counterexample :
+    let es : List Entry := [{ qn := .attr (.sym "o") "a", guarded := true, label := strConst "o.a" },
+                            { qn := .attr (.sym "p") "a", guarded := true, label := strConst "p.a" }]
+    let σ : Store := fun q =>
+      if q = .sym "o" then some (.obj 0) else if q = .sym "p" then some (.obj 0)
+      else if q = .attr (objLit 0) "a" then some (.int 5) else none
+    classify σ es = .aliased ∧
+    ∃ σ', assignSeq (es.map (·.qn)) [.int 1, .int 2] σ = some σ' ∧ getS es σ' = some [.int 2, .int 2] := by
+  intro es σ
+  refine ⟨?_, ?_⟩
+  · simp [es, σ, classify, undefBaseAt, missingAt, dependentAt, aliasedAt, nodupB, slotsOf, reads, resolve, Res.read,
+      Res.slots, objLit]
+  · refine ⟨_, by simp [es, σ, assignSeq, resolve, Res.read, objLit]; rfl, ?_⟩
+    simp [es, getS, readEntry, resolve, Res.read, update, objLit]
 
 /-
 The full statement "writing back what was just read changes nothing",
@@ -253,43 +300,56 @@ The full statement "writing back what was just read changes nothing",
   theorem C03_get_set : ∀ o ∈ emitted (cfOutput env nm root), ∃ c, o = some c ∧
       ∀ σ vs n, (runGetter c ⟨σ, n⟩).1 = some vs → runSetter c vs σ = some σ
 
-is FALSE of the pinned code: a composite entry (`d['k']`, `o.a`) that the store lacks is read through `ag__.ldu`
-as `Undefined('d[…]')`, and the write-back then CREATES it (`C03_get_set_counterexample` below; replayed on the
-real code by corpus/C03/missing_composite.json; finding class `missing_composite_written_back` =
-`missingComposite c σ = true`).  What holds:
+is FALSE of the pinned code: a composite entry (`d['k']`, `o.a`) that the store lacks is read through `ag__.ldu` as
+`Undefined('d[…]')` and the write-back CREATES it (`C03_get_set_counterexample`, class `missingComposite`,
+corpus/C03/missing_composite.json); with a base that holds the `Undefined` placeholder the read succeeds and the write-back
+RAISES (`C03_undefined_base_counterexample`, class `undefinedBase`, corpus/C03/composite_base_undefined.json).  What holds:
 -/
 
-/-- Writing back what was just read changes nothing, PROVIDED every guarded (composite) entry of the state tuple
-exists in the store at call time. -/
+/-- `set_state(get_state())` is the identity on the caller-visible store — for every call the pass can emit and every
+store that is in neither of the classes `undefinedBase`, `missingComposite` for its state tuple (in particular every
+`lawful` one; dependence and aliasing do not matter here). -/
 theorem C03_get_set_partial (env : Env) (nm : Namer) (root : Stmt) (h : cleanS root = true) :
-    ∀ o ∈ emitted (cfOutput env nm root), ∃ c, o = some c ∧
-      ∀ (σ : Store) (vs : List Val) (n : Nat), missingComposite c σ = false →
+    ∀ o ∈ emitted (cfOutput env nm root), ∃ c es, o = some c ∧ entries c = some es ∧
+      ∀ (σ : Store) (vs : List Val) (n : Nat), undefBaseAt σ es = false → missingAt σ es = false →
         (runGetter c ⟨σ, n⟩).1 = some vs → runSetter c vs σ = some σ := by
   intro o ho
   obtain ⟨c, hc, hg, _⟩ := model_good env nm root h o ho
   obtain ⟨gs, ts, es, hgs, hts, he, hq, _, _⟩ := state_of_good hg
-  exact ⟨c, hc, fun σ vs n hm hr => get_set_of hgs hts he hq σ vs n hm hr⟩
+  exact ⟨c, es, hc, by simp [entries, hgs, he],
+    fun σ vs n hu hm hr => get_set_of hg.2.2.2.2.2.2 hgs hts he hq σ vs n hu hm hr⟩
 
-/-- The counterexample to the full statement: the state tuple `("d['k']",)` of `if a: d['k'] = 1` in a store where
-`d` is bound and `d['k']` is missing: the guarded read yields `Undefined`, the write-back creates the entry.
-(`getterDen_guardedVar`: every composite state variable is read through `ag__.ldu`, i.e. is such a guarded entry.) -/
+/-- Class `missingComposite`: the state tuple `("d['k']",)` of `if a: d['k'] = 1` with `d` an empty dict: the guarded read
+yields `Undefined`, the write-back creates the entry. -/
 theorem C03_get_set_counterexample :
     let e : Entry := { qn := .sub (.sym "d") (.lit "str" "'k'"), guarded := true, label := strConst "d['k']" }
     let σ : Store := fun q => if q = .sym "d" then some (.obj 0) else none
+    classify σ [e] = .missingComposite ∧
     ∃ (vs : List Val) (σ' : Store), getS [e] σ = some vs ∧ assignSeq [e.qn] vs σ = some σ' ∧ σ' ≠ σ := by
   intro e σ
-  refine ⟨[.undef (labelStr e.label)], _, ?_, rfl, ?_⟩
-  · simp [e, σ, getS, readEntry, loc, resolveIdx]
+  refine ⟨by simp [e, σ, classify, undefBaseAt, missingAt, resolve, Res.read, resolveIdx, objLit], ?_⟩
+  refine ⟨[.undef (labelStr e.label)], _, ?_, by simp [e, σ, assignSeq, resolve, Res.read, resolveIdx, objLit]; rfl, ?_⟩
+  · simp [e, σ, getS, readEntry, resolve, Res.read, resolveIdx, objLit]
   · intro heq
-    have := congrFun heq (.sub (.sym "d") (.lit "str" "'k'"))
-    simp [e, σ, update] at this
+    have := congrFun heq (.sub (objLit 0) (.lit "str" "'k'"))
+    simp [σ, update, objLit] at this
+
+/-- Class `undefinedBase`: the state tuple `('p.v',)` with `p = Undefined('p')`: the read succeeds (the placeholder answers
+every attribute with itself), the write-back raises. -/
+theorem C03_undefined_base_counterexample :
+    let e : Entry := { qn := .attr (.sym "p") "v", guarded := true, label := strConst "p.v" }
+    let σ : Store := fun q => if q = .sym "p" then some (.undef "p") else none
+    classify σ [e] = .undefinedBase ∧ getS [e] σ = some [.undef "p"] ∧ assignSeq [e.qn] [.undef "p"] σ = none := by
+  intro e σ
+  refine ⟨by simp [e, σ, classify, undefBaseAt, resolve, Res.read], by simp [e, σ, getS, readEntry, resolve, Res.read],
+    by simp [e, σ, assignSeq, resolve, Res.read]⟩
 
 /-- Hence the unconditional law fails. -/
 theorem C03_get_set_full_is_false :
     ¬ ∀ (es : List Entry) (vs : List Val) (σ σ' : Store), getS es σ = some vs →
         assignSeq (es.map (·.qn)) vs σ = some σ' → σ' = σ := by
   intro hall
-  obtain ⟨vs, σ', h1, h2, h3⟩ := C03_get_set_counterexample
+  obtain ⟨_, vs, σ', h1, h2, h3⟩ := C03_get_set_counterexample
   exact h3 (hall _ vs _ σ' h1 h2)
 
 /-! ### Non-vacuity of the hypotheses -/
@@ -303,27 +363,19 @@ example : cleanS (.if_ 1 (.name 2 "c" .load) [.assign 3 [.name 4 "x" .store] (.c
 example : cleanS (.expr 1 (.call 2 (.attr 3 (.name 4 "ag__" .load) "if_stmt" .load) [] [])) = false := by
   simp [cleanS, isOpCall, opCall?, agOp?, kindOfOp]
 
-/-- A store in which the guarded entry `o.a` exists satisfies the hypothesis of `C03_get_set_partial`, and the
-law holds there; with the entry missing the hypothesis fails. -/
+/-- The class `lawful` is inhabited by a tuple with a composite entry: `('o.a', 'x')` with `o` an object that has `a`. -/
 example :
-    let e : Entry := { qn := .attr (.sym "o") "a", guarded := true, label := strConst "o.a" }
-    let σ : Store := fun q => if q = .attr (.sym "o") "a" then some (.int 7) else none
-    getS [e] σ = some [.int 7] ∧ assignSeq [e.qn] [.int 7] σ = some σ ∧
-    ((loc σ e.qn).bind σ).isNone = false ∧ ((loc (fun _ => none) e.qn).bind (fun _ => none : Store)).isNone = true := by
-  intro e σ
-  refine ⟨by simp [e, σ, getS, readEntry, loc], ?_, by simp [e, σ, loc], by simp [e, loc]⟩
-  have : update σ (.attr (.sym "o") "a") (.int 7) = σ := by
-    funext q
-    by_cases hq : q = .attr (.sym "o") "a" <;> simp [σ, update, hq]
-  simp [e, assignSeq, loc, this]
-
-/-- The hypotheses of `C03_set_get_partial` hold of the tuple `('o.a', 'x')` in any store. -/
-example (σ : Store) :
     let es : List Entry := [{ qn := .attr (.sym "o") "a", guarded := true, label := strConst "o.a" },
                             { qn := .sym "x", guarded := false, label := .noneMarker }]
-    dependentEntries es = false ∧ aliasedEntries es σ = false := by
-  intro es
-  exact ⟨by simp [es, dependentEntries, indexSyms], by simp [es, aliasedEntries, loc, nodupB]⟩
+    let σ : Store := fun q =>
+      if q = .sym "o" then some (.obj 0) else if q = .sym "x" then some (.int 1)
+      else if q = .attr (objLit 0) "a" then some (.int 7) else none
+    classify σ es = .lawful ∧ getS es σ = some [.int 7, .int 1] := by
+  intro es σ
+  refine ⟨?_, ?_⟩
+  · simp [es, σ, classify, undefBaseAt, missingAt, dependentAt, aliasedAt, nodupB, slotsOf, reads, resolve, Res.read,
+      Res.slots, objLit]
+  · simp [es, σ, getS, readEntry, resolve, Res.read, objLit]
 
 /-! ## The verified checker (run on the REAL final generated code) -/
 
@@ -337,9 +389,9 @@ theorem C03_contractOk_sound (g : ParsedOutput) (h : contractOk g = true) :
 /-- For code accepted by the checker the getter/setter algebra holds as for the model's output. -/
 theorem C03_contractOk_algebra (g : ParsedOutput) (h : contractOk g = true) :
     ∀ o ∈ emitted g, ∃ c es, o = some c ∧ entries c = some es ∧ (∀ w : World, (runGetter c w).2 = w) ∧
-      (∀ (σ : Store) (vs : List Val) (n : Nat), dependentEntries es = false → aliasedEntries es σ = false →
+      (∀ (σ : Store) (vs : List Val) (n : Nat), classify σ es = .lawful →
         vs.length = c.names.length → ∃ σ', runSetter c vs σ = some σ' ∧ (runGetter c ⟨σ', n⟩).1 = some vs) ∧
-      (∀ (σ : Store) (vs : List Val) (n : Nat), missingComposite c σ = false →
+      (∀ (σ : Store) (vs : List Val) (n : Nat), undefBaseAt σ es = false → missingAt σ es = false →
         (runGetter c ⟨σ, n⟩).1 = some vs → runSetter c vs σ = some σ) := by
   intro o ho
   obtain ⟨c, hc, hg⟩ := contractOk_sound' h o ho
@@ -349,9 +401,9 @@ theorem C03_contractOk_algebra (g : ParsedOutput) (h : contractOk g = true) :
     intro w
     simp only [runGetter, hgs']
     exact evalGetter_pure gs' w hall
-  · intro σ vs n hdep hal hv
-    exact set_get_of hgs hts he hq hlen σ vs n hdep hal hv
-  · intro σ vs n hm hr
-    exact get_set_of hgs hts he hq σ vs n hm hr
+  · intro σ vs n hcl hv
+    exact set_get_of hg.2.2.2.2.2.2 hgs hts he hq hlen σ vs n hcl hv
+  · intro σ vs n hu hm hr
+    exact get_set_of hg.2.2.2.2.2.2 hgs hts he hq σ vs n hu hm hr
 
 end Malt.Conv.Contract
